@@ -407,15 +407,19 @@ def execute(scn):
                             superseded = True
                         ltp[ev['tid']] = ev['pid']
                         lpn[ev['pid']] = name
-                    seg = proc_segs[li].strip()
+                    # a log line is: 27 columns of time, then (if the record names a process) ' <process padded to 27> ', then the text
+                    line = lines[tuple([True] * 6)][li]
+                    msg = strings_.get(ev.get('cm'), '')
                     if not name:
                         wantp = ''
+                        want_tail = msg
                     else:
                         pid_ = ltp.get(ev['tid'], -1)
                         wantp = ('%s(%d)' % (lpn.get(pid_, ''), pid_)) if pid_ != -1 else 'Error: tid %d' % ev['tid']
-                    if seg != wantp.strip():
-                        bad('process-column', 'logs:wrong-process', 'log line %d (tid %d): process column %r; the dump declares %r at that point' % (
-                            li, ev['tid'], seg, wantp))
+                        want_tail = ' %s ' % format(wantp, '<27') + msg
+                    if line[27:] != want_tail:
+                        bad('process-column', 'logs:wrong-process', 'log line %d (tid %d): after the time the line reads %r; the dump declares %r at that point (%r)' % (
+                            li, ev['tid'], line[27:], wantp, want_tail))
                         break
                 if superseded:
                     bump('probe:log_record_supersedes_earlier_declaration')
